@@ -73,3 +73,8 @@ Fixpoint find_index {A} (f : A -> bool) (l : list A) : option nat :=
   | [] => None
   | x :: r => if f x then Some O else option_map S (find_index f r)
   end.
+
+(* an action's config dict restricted to the integer-valued settings: text (from the service) or number (registered in code) *)
+Definition cfg_get (c : list (str * argv)) (k : str) (d : Z) : argv := match alookup k c with Some v => v | None => ANum d end.
+(* int(v); None = ValueError *)
+Definition py_int (v : argv) : option Z := match v with ANum z => Some z | AText s => parse_int s end.
